@@ -161,3 +161,41 @@ def c05_lexical(repo, tier):
         obs.append(ob("lexical/consume-hands-each-datagram-to-handle-then-handled", ok, "", None))
     return {"name": "lexical", "backend": "ast-dominance", "obligations": obs, "functions": funcs,
             "samples": [{"obligation": o["name"], "verdict": o["status"]} for o in obs[:2]]}
+
+
+def calls_named(func, method):
+    out = []
+    for n, withs in nodes_with_context(func):
+        if isinstance(n, ast.Call) and isinstance(n.func, ast.Attribute) and n.func.attr == method:
+            out.append((n, withs))
+    return out
+
+
+def c06_lexical(repo, tier):
+    """every transmission of a *request* in the async stack is dominated by `async with <protocol>.Lock`"""
+    obs = []
+    funcs = {}
+    allowed_unlocked = {
+        ("driver/protocol/statusblock.py", "GeckoAsyncPartialStatusBlockProtocolHandler.async_handle"): "STATQ acknowledgement (not a request)",
+        ("async_locator.py", "GeckoAsyncLocator._broadcast_loop"): "discovery broadcast on the locator's own endpoint",
+    }
+    files = ["async_spa.py", "driver/async_spastruct.py", "driver/async_udp_protocol.py", "automation/async_facade.py",
+             "async_spa_manager.py", "async_locator.py", "driver/protocol/statusblock.py", "automation/watercare.py", "automation/reminders.py"]
+    for rel in files:
+        tree, src, path = parse(repo, rel)
+        for cls in [n for n in tree.body if isinstance(n, ast.ClassDef)]:
+            for f in [m for m in ast.walk(cls) if isinstance(m, ast.AsyncFunctionDef)]:
+                qual = "%s.%s" % (cls.name, f.name)
+                for call, withs in calls_named(f, "queue_send"):
+                    locked = any(isinstance(w, ast.AsyncWith) and any(ast.unparse(it.context_expr).endswith(".Lock") for it in w.items) for w in withs)
+                    if (rel, qual) in allowed_unlocked:
+                        obs.append(ob("lexical-lock/%s:%s:queue_send-is-not-a-request(%s)" % (rel, qual, allowed_unlocked[(rel, qual)]), True))
+                        continue
+                    funcs["geckolib.%s:%s" % (rel[:-3].replace("/", "."), qual)] = seg_hash(src, f)
+                    obs.append(ob("lexical-lock/%s:%s:queue_send-inside-async-with-Lock" % (rel, qual), locked,
+                                  "a request transmitted outside the protocol lock can be outstanding together with another one",
+                                  {"line": call.lineno, "file": path}))
+    if not [o for o in obs if "inside-async-with-Lock" in o["name"]]:
+        obs.append({"name": "lexical-lock/at-least-one-request-site-found", "status": "unknown", "detail": "no queue_send call found (renamed?)"})
+    return {"name": "lexical", "backend": "ast-dominance", "obligations": obs, "functions": funcs,
+            "samples": [{"obligation": o["name"], "verdict": o["status"]} for o in obs[:2]]}
